@@ -15,7 +15,8 @@ Ops1 == {"UnaryOp-", "UnaryOp^", "UnaryOp!", "UnaryOp<-", "Star", "Elem", "IncDe
 Ops2 == {"BinaryOp+", "BinaryOp/", "BinaryOp%", "BinaryOp<<", "BinaryOp>>", "BinaryOp==", "BinaryOp<", "BinaryOp&&", "BinaryOp&^",
          "Assign", "AssignOp+=", "AssignOp<<=", "Send", "Index", "Slice", "Call1", "append", "copy", "MapLit", "SliceLit", "CaseThen"}
 Operands == {"int", "int8", "uint", "float", "string", "bool", "slice", "array", "map", "chan", "ptr", "func", "struct", "iface", "named",
-             "c0", "c1", "cneg", "cfloat", "cstring", "cbool", "crune", "nil", "c2p40", "c2p63", "c2p64", "c2p100", "chuge", "cbigshift", "type", "ref", "tuple2", "novalue"}
+             "c0", "c1", "cneg", "cfloat", "cstring", "cbool", "crune", "nil", "c2p40", "c2p63", "c2p64", "c2p100", "chuge", "cbigshift", "type", "ref", "tuple2", "novalue",
+             "cyc", "cycptr", "recslice"}   \* values whose types are recursive: A{*B}, B{*A} (embedding cycle through pointers), *A, type L []L
 Configs == {"default", "recorder", "noskip"}
 Arity(op) == IF op \in Ops1 THEN 1 ELSE 2
 VARIABLE pt
